@@ -407,6 +407,10 @@ class Generator(object):
         if not checker.has_upper_bound():
             raise self.error('OCTET STRING has no maximum length.')
 
+        if checker.maximum < 1:
+            # A zero-size array is not valid C99.
+            raise self.error('OCTET STRING maximum length is zero.')
+
         if checker.minimum == checker.maximum:
             lines = []
         elif checker.maximum < 256:
